@@ -604,3 +604,59 @@ PROPS = {
                         "(fallback: every address-taken function)"],
     },
 }
+
+
+# ------------------------------------------------------------------ texts of the rules added in session 3
+# (appended to the technique / explanation / level texts above so that MANIFEST and evidence name every deciding method)
+_ADD = {
+    "C01": {"level_text": " Since session 3 the presence, coverage, failing signs and data dependences of the test's own gates are decided too "
+                          "(R-CERTDEP): a dropped or narrowed check, a wrong array or index space, a data-dependent skip are reported."},
+    "C02": {"level_text": " R-CERTDEP decides presence, coverage over all internal columns, failing outcomes (<= 0) and data dependences of the "
+                          "Farkas-value and infinite-bound gates."},
+    "C05": {"technique": "; per-iteration must-write analysis for the co-update of a row's sense with its logical column",
+            "explanation": " (R-COUPD(sense)) every path that stores a new row sense also writes the logical column's lower bound, upper bound and "
+                           "coefficient before the loop iteration / function completes."},
+    "C08": {"technique": "; all-paths constant propagation through the '/' case of the exact literal scanner; flag-state dataflow for stores into the "
+                         "raw LP's bounds; machine-word sink census; exit-condition analysis of the emission loops",
+            "explanation": " (R-RESCAN) the '/' case of the exact literal scanner restores every scanner state variable; (R-EXPLICITBND) the raw LP's "
+                           "bounds are stored only where the 'explicitly given' flag is zero, finite defaults only where both flags are zero; (R-EXACT, "
+                           "machine word) no literal is assembled in an unsigned long without a visible digit bound <= 19; (R-FULLSCAN) the emission "
+                           "loops of the LP writer are left only on counter tests or failure exits."},
+    "C09": {"technique": "; all-paths constant propagation through the '/' case of the exact literal scanner; flag-state dataflow for stores into the "
+                         "raw LP's bounds; machine-word sink census; exit-condition analysis of the emission loops; dominance of row-naming records "
+                         "by the row-length test",
+            "explanation": " Shared reader clauses as in C08 (R-RESCAN, R-EXPLICITBND, machine-word sinks); (R-FULLSCAN) the emission loops of the MPS "
+                           "writer are exhaustive; (R-ROWFILTER) every record naming a row (RHS, RANGES) is written under the emptiness test that decides "
+                           "the row's declaration in ROWS."},
+    "C10": {"technique": "; all-paths constant propagation through the '/' case of the exact literal scanner; flag-state dataflow (set-of-tuples) for "
+                         "stores into the raw LP's bounds; machine-word sink census with digit-bound discharge",
+            "explanation": " (R-RESCAN) the denominator of p/q is scanned from the same state as the numerator; (R-EXPLICITBND) a bound given in the "
+                           "file is never replaced by a default and finite defaults (binary upper bound) apply only to columns without any bound; "
+                           "(R-EXACT, machine word) literals are not assembled in a machine word.",
+            "level_text": " Since session 3 three clauses of the scanner / default-bound semantics are decided structurally (state reset at '/', "
+                          "explicit-versus-default flags, no machine-word accumulation)."},
+    "C11": {"technique": "; census of printf-like calls (set computed from the declarations) with literal / forwarded-format discharge",
+            "explanation": " (R-FMT) no text of the input (a name, a line) is used as a format string on a reader path; (R-ERRLOST) the error code of "
+                           "a failing callee is examined before it is overwritten."},
+    "C13": {"technique": "; control-dependence analysis of scratch-mark resets and dependency-counter updates on conditions over exact numbers",
+            "explanation": " (R-SCRATCH) in the sparse kernels no clearing of a scratch mark (lpinfo::iwork) and no update of a dependency counter "
+                           "(ur/uc/lr/lc_info::delay) is control-dependent on the value of an exact number: an exact cancellation must not change the "
+                           "structure the next solve relies on.",
+            "level_text": " R-SCRATCH adds the structural clause that marks and topological counters are value-independent (two seeded LU / tableau "
+                          "defects are reported by it)."},
+    "C14": {"technique": "; exit-condition analysis of the record-emitting loops of the basis writer",
+            "explanation": " (R-FULLSCAN) the loops that emit XU/XL and UL records are left only on counter tests or failure exits; (R-SECTIONS) every "
+                           "section emitter dominates ENDATA."},
+    "C17": {"technique": "; capacity-governed allocation agreement (governed arrays discovered from their allocation sites); read-but-never-written "
+                         "field census; printf-format census; floating-point-derived subscript taint; four-array norm typestate at a basis load"},
+    "C18": {"technique": "; append-slot typestate with error-code / flag correlation; deep-release check of owning records"},
+    "C19": {"technique": "; status-value enumeration through switch / if / conditional-expression forms; printf-format census; resource typestate on "
+                         "esolver's main; exit-condition analysis of the print loops",
+            "explanation": " (R-FMT) no row / column name is used as a format string; (R-PAIR on esolver) the solution file is closed on every path; "
+                           "(R-FULLSCAN) the print loops of QSexact_print_sol are exhaustive; R-NZFILTER follows the arrays into print helpers."},
+    "C20": {"explanation": " The handler variables tested by QSlogv must have process-wide storage duration: a thread-local handler would leave every "
+                           "other thread of the host on the stderr branch."},
+}
+for _pid, _d in _ADD.items():
+    for _k, _v in _d.items():
+        PROPS[_pid][_k] = PROPS[_pid].get(_k, "") + _v
